@@ -210,7 +210,7 @@ func c09(c *an.Ctx) {
 		var conds []string
 		for _, g := range an.GuardsOf(wrapRet.Block()) {
 			s := an.Expr(g.Cond)
-			if !strings.Contains(s, "NonNil") && !strings.Contains(s, isInput) {
+			if !strings.Contains(s, "phi:") && !strings.Contains(s, isInput) {
 				continue
 			}
 			if strings.Contains(s, "nil)") || strings.Contains(s, "(phi:a,") || strings.Contains(s, "mergeTypeRefs(") {
@@ -226,7 +226,7 @@ func c09(c *an.Ctx) {
 			if dg := an.DisjunctGuards(d); dg != nil {
 				okAtoms := true
 				for _, g := range dg {
-					if !strings.Contains(g, "NonNil") && !strings.Contains(g, isInput) {
+					if !strings.Contains(g, "phi:") && !strings.Contains(g, isInput) {
 						okAtoms = false
 					}
 				}
@@ -240,9 +240,16 @@ func c09(c *an.Ctx) {
 			return
 		}
 		expr := strings.Join(conds, " && ")
+		// the two "is NON_NULL" flags, identified by role: a boolean phi that becomes true
+		// exactly under `<param k>.Kind == "NON_NULL"`
+		atomA, atomB := nonNullFlag(fn, 0), nonNullFlag(fn, 1)
+		if atomA == "" || atomB == "" {
+			o.FailAt(wrapRet, "cannot find the flags recording that a / b are NON_NULL")
+			return
+		}
 		for mask := 0; mask < 8; mask++ {
 			a, b, in := mask&1 != 0, mask&2 != 0, mask&4 != 0
-			env := map[string]bool{"phi:aNonNil": a, "phi:bNonNil": b, isInput: in}
+			env := map[string]bool{atomA: a, atomB: b, isInput: in}
 			got, ok := evalBool(expr, env)
 			if !ok {
 				o.FailAt(wrapRet, "cannot evaluate the nullability condition %s", expr)
@@ -255,32 +262,6 @@ func c09(c *an.Ctx) {
 			}
 		}
 		o.Note("condition: %s", expr)
-		// the atoms mean what their names say
-		for _, atom := range []string{"aNonNil", "bNonNil"} {
-			okAtom := false
-			an.Instrs(fn, func(i ssa.Instruction) {
-				phi, ok := i.(*ssa.Phi)
-				if !ok || phi.Comment != atom {
-					return
-				}
-				for k, e := range phi.Edges {
-					if cst, ok := e.(*ssa.Const); ok && cst.Value != nil && cst.Value.ExactString() == "true" {
-						pred := phi.Block().Preds[k]
-						for _, g := range an.GuardStrings(pred) {
-							if g == "("+string(atom[0])+".Kind == \"NON_NULL\")" {
-								okAtom = true
-							}
-						}
-						if pred == phi.Block().Preds[k] && len(an.GuardStrings(pred)) == 0 {
-							okAtom = false
-						}
-					}
-				}
-			})
-			if !okAtom {
-				o.Fail(p.Pos(fn.Pos()), "%s is not `%s.Kind == \"NON_NULL\"`", atom, string(atom[0]))
-			}
-		}
 		// recursion keeps isInput
 		for _, call := range an.Calls(fn, an.Mod(fed, "", "mergeTypeRefs")) {
 			o.Site(call)
@@ -477,4 +458,76 @@ func c09(c *an.Ctx) {
 		}
 	})
 	_ = token.ADD
+}
+
+// nonNullFlag returns the rendering of the boolean phi in fn that is set to
+// true exactly under `<param k>.Kind == "NON_NULL"` ("" if none).
+func nonNullFlag(fn *ssa.Function, k int) string {
+	out := ""
+	an.Instrs(fn, func(i ssa.Instruction) {
+		phi, ok := i.(*ssa.Phi)
+		if !ok || out != "" {
+			return
+		}
+		for e, v := range phi.Edges {
+			cst, ok := v.(*ssa.Const)
+			if !ok || cst.Value == nil || cst.Value.ExactString() != "true" {
+				continue
+			}
+			pred := phi.Block().Preds[e]
+			for _, g := range an.GuardsOf(pred) {
+				bo, ok := g.Cond.(*ssa.BinOp)
+				if !ok || bo.Op != token.EQL || !g.Polarity {
+					continue
+				}
+				if s, ok := an.ConstString(bo.Y); !ok || s != "NON_NULL" {
+					continue
+				}
+				if paramRoot(bo.X) == fn.Params[k] {
+					out = an.Expr(phi)
+				}
+			}
+			// the If may be in pred itself's predecessor chain when pred is the then-block
+			if out == "" && len(pred.Preds) == 1 {
+				if iff, ok := pred.Preds[0].Instrs[len(pred.Preds[0].Instrs)-1].(*ssa.If); ok && pred.Preds[0].Succs[0] == pred {
+					if bo, ok := iff.Cond.(*ssa.BinOp); ok && bo.Op == token.EQL {
+						if s, ok := an.ConstString(bo.Y); ok && s == "NON_NULL" && paramRoot(bo.X) == fn.Params[k] {
+							out = an.Expr(phi)
+						}
+					}
+				}
+			}
+		}
+	})
+	return out
+}
+
+// paramRoot walks loads / field selections / phis back to the parameter a value is rooted at.
+func paramRoot(v ssa.Value) *ssa.Parameter {
+	seen := map[ssa.Value]bool{}
+	for d := 0; d < 12 && v != nil && !seen[v]; d++ {
+		seen[v] = true
+		switch x := v.(type) {
+		case *ssa.Parameter:
+			return x
+		case *ssa.UnOp:
+			v = x.X
+		case *ssa.FieldAddr:
+			v = x.X
+		case *ssa.Field:
+			v = x.X
+		case *ssa.Phi:
+			// all parameter-rooted edges must agree; prefer the parameter edge
+			var pr *ssa.Parameter
+			for _, e := range x.Edges {
+				if p, ok := e.(*ssa.Parameter); ok {
+					pr = p
+				}
+			}
+			return pr
+		default:
+			return nil
+		}
+	}
+	return nil
 }
